@@ -224,8 +224,22 @@ def run_join(ctx, case):
         if k:
             want += obs.spec_cells(sep)
         want += obs.observe(i) if isinstance(i, str) else obs.spec_cells(i)
+    if how == "fmtstr":
+        # the iterable is a FmtStr: its characters are the items, as for str.join(str)
+        whole = obs.build(items[0]) if items and not isinstance(items[0], str) else None
+        if whole is None:
+            return
+        chars = obs.spec_cells(items[0])
+        want_text = obs.text_of(obs.spec_cells(sep)).join(c[0] for c in chars)
+        want = []
+        for k, c in enumerate(chars):
+            if k:
+                want += obs.spec_cells(sep)
+            want.append(c)
+        vals = whole
     arg = {"list": lambda: vals, "tuple": lambda: tuple(vals), "iter": lambda: iter(vals),
-           "generator": lambda: (v for v in vals), "map": lambda: map(lambda v: v, vals)}[how]()
+           "generator": lambda: (v for v in vals), "map": lambda: map(lambda v: v, vals),
+           "fmtstr": lambda: vals}[how]()
     try:
         r = vsep.join(arg)
     except Exception as ex:  # noqa
@@ -314,5 +328,5 @@ def run(ctx):
         items = [rng.choice(["", "x", "yz"]) if rng.random() < .4 else obs.rand_spec(rng, 2, 3, "ab ", palette=obs.PALETTE)
                  for _ in range(rng.randint(0, 4))]
         run_join(ctx, {"method": "join", "sep": obs.rand_spec(rng, 2, 2, ",-", palette=obs.PALETTE), "items": items,
-                       "iterable": rng.choice(["list", "tuple", "iter", "generator", "map"])})
+                       "iterable": rng.choice(["list", "tuple", "iter", "generator", "map", "fmtstr"])})
         ctx.count("joins")
